@@ -64,6 +64,13 @@ Verdict eval_hola(const Case &c) {
     bool leaf = false, hub = false;
     for (int d : deg) { if (d == 1) leaf = true; if (d >= 6) hub = true; }
     bool cyclic = c.edges.size() >= n;
+    // Known finding F25 concerns pure trees whose nodes differ a lot in size; its signature is only granted there
+    // (largest node dimension at least 3 times the smallest).  Failures on trees of similar-sized nodes are reported.
+    double dmin = 1e300, dmax = 0;
+    for (auto &nd : c.nodes) { dmin = std::min({dmin, nd.w, nd.h}); dmax = std::max({dmax, nd.w, nd.h}); }
+    const bool f25 = !cyclic && dmax >= 3 * dmin;        // for node overlaps
+    const bool f25r = !cyclic;                            // for route symptoms (diagonal fallback routes occur in pure trees of any node sizes)
+    if (!cyclic && !f25) v.cls("tree-of-similar-sized-nodes");
     v.nontrivial = cyclic && leaf;
     if (cyclic) v.cls("has-cycle"); else v.cls("tree");
     if (hub) v.cls("hub-degree>=6");
@@ -99,7 +106,7 @@ Verdict eval_hola(const Case &c) {
     }
     for (size_t i = 0; i < n; i++) for (size_t j = i + 1; j < n; j++) {
         double ox = std::min(bb[i].X, bb[j].X) - std::max(bb[i].x, bb[j].x), oy = std::min(bb[i].Y, bb[j].Y) - std::max(bb[i].y, bb[j].y);
-        if (ox > 1e-6 && oy > 1e-6) { v.fail(fmt("nodes %zu and %zu overlap by %.6g x %.6g", i, j, ox, oy), cyclic ? "node-overlap" : "F25-pure-tree-layout"); return v; }
+        if (ox > 1e-6 && oy > 1e-6) { v.fail(fmt("nodes %zu and %zu overlap by %.6g x %.6g", i, j, ox, oy), (f25 ? "F25-pure-tree-layout" : (cyclic ? "node-overlap" : "tree-node-overlap"))); return v; }
     }
     // routes
     double iel = g->getIEL();
@@ -109,18 +116,18 @@ Verdict eval_hola(const Case &c) {
         std::vector<Avoid::Point> r = e->getRoute();
         auto ends = e->getEndIds();
         int a = idx[ends.first], b = idx[ends.second];
-        if (r.size() < 2) { v.fail(fmt("edge %d-%d has a route of %zu points", a, b, r.size()), (cyclic ? "no-route" : "F25-pure-tree-layout")); return v; }
+        if (r.size() < 2) { v.fail(fmt("edge %d-%d has a route of %zu points", a, b, r.size()), (f25r ? "F25-pure-tree-layout" : "no-route")); return v; }
         auto inb = [&](const BoundingBox &q, const Avoid::Point &pt) { return pt.x >= q.x - pad && pt.x <= q.X + pad && pt.y >= q.y - pad && pt.y <= q.Y + pad; };
         bool fwd = inb(bb[a], r.front()) && inb(bb[b], r.back()), rev = inb(bb[b], r.front()) && inb(bb[a], r.back());
-        if (!fwd && !rev) { v.fail(fmt("edge %d-%d: route from (%g,%g) to (%g,%g) does not join its end nodes (padding %g)", a, b, r.front().x, r.front().y, r.back().x, r.back().y, pad), (cyclic ? "route-ends" : "F25-pure-tree-layout")); return v; }
+        if (!fwd && !rev) { v.fail(fmt("edge %d-%d: route from (%g,%g) to (%g,%g) does not join its end nodes (padding %g)", a, b, r.front().x, r.front().y, r.back().x, r.back().y, pad), (f25r ? "F25-pure-tree-layout" : "route-ends")); return v; }
         for (size_t k = 1; k < r.size(); k++) {
             // HOLA rotates and translates the finished drawing, so 'horizontal' is up to floating-point rounding of those transforms
             double tolAP = 1e-9 * std::max({1.0, std::fabs(r[k].x), std::fabs(r[k].y)});
-            if (std::fabs(r[k].x - r[k - 1].x) > tolAP && std::fabs(r[k].y - r[k - 1].y) > tolAP) { v.fail(fmt("edge %d-%d: segment (%.17g,%.17g)-(%.17g,%.17g) is not axis-parallel", a, b, r[k - 1].x, r[k - 1].y, r[k].x, r[k].y), (cyclic ? "diagonal-segment" : "F25-pure-tree-layout")); return v; }
+            if (std::fabs(r[k].x - r[k - 1].x) > tolAP && std::fabs(r[k].y - r[k - 1].y) > tolAP) { v.fail(fmt("edge %d-%d: segment (%.17g,%.17g)-(%.17g,%.17g) is not axis-parallel", a, b, r[k - 1].x, r[k - 1].y, r[k].x, r[k].y), (f25r ? "F25-pure-tree-layout" : "diagonal-segment")); return v; }
             double ax = std::min(r[k].x, r[k - 1].x), bx = std::max(r[k].x, r[k - 1].x), ay = std::min(r[k].y, r[k - 1].y), by = std::max(r[k].y, r[k - 1].y);
             for (size_t u = 0; u < n; u++) {
                 if ((int)u == a || (int)u == b) continue;
-                if (bx > bb[u].x + 1e-6 && ax < bb[u].X - 1e-6 && by > bb[u].y + 1e-6 && ay < bb[u].Y - 1e-6) { v.fail(fmt("edge %d-%d: segment (%g,%g)-(%g,%g) passes through node %zu", a, b, r[k - 1].x, r[k - 1].y, r[k].x, r[k].y, u), (cyclic ? "route-through-node" : "F25-pure-tree-layout")); return v; }
+                if (bx > bb[u].x + 1e-6 && ax < bb[u].X - 1e-6 && by > bb[u].y + 1e-6 && ay < bb[u].Y - 1e-6) { v.fail(fmt("edge %d-%d: segment (%g,%g)-(%g,%g) passes through node %zu", a, b, r[k - 1].x, r[k - 1].y, r[k].x, r[k].y, u), (f25r ? "F25-pure-tree-layout" : "route-through-node")); return v; }
             }
         }
     }
@@ -146,13 +153,21 @@ Verdict eval_hola(const Case &c) {
     return v;
 }
 
-Case gen_case() {
+Case gen_case(bool treesOnly = false) {
     Case c;
     int maxn = tier_thorough() ? 60 : 30;
-    int n = sized(2, maxn);
-    int fam = irange(0, 4);        // 0 tree 1 cycle 2 tree + chords 3 dense core with hanging trees 4 hub
+    int n = treesOnly ? sized(4, maxn) : sized(2, maxn);
+    int fam = treesOnly ? 0 : irange(0, 4);        // 0 tree 1 cycle 2 tree + chords 3 dense core with hanging trees 4 hub
     if (getenv("C14_NO_TREES") && (fam == 0 || fam == 4)) fam = irange(1, 3);
-    for (int i = 0; i < n; i++) c.nodes.push_back({(double)irange(0, 400), (double)irange(0, 400), (double)irange(1, 10) * 10, (double)irange(1, 10) * 10});
+    // node sizes: independent 10..100; in the trees-only family all nodes of one size or of two similar sizes
+    // (cyclic graphs whose nodes all have nearly the same size are not generated: known finding F49, excluded by construction)
+    bool similar = treesOnly;
+    double bw = irange(1, 6) * 10, bh = irange(1, 6) * 10;
+    for (int i = 0; i < n; i++) {
+        double w = (double)irange(1, 10) * 10, h = (double)irange(1, 10) * 10;
+        if (similar) { w = bw; h = bh; if (coin(1, 4)) { w = bw + 10; } }
+        c.nodes.push_back({(double)irange(0, 400), (double)irange(0, 400), w, h});
+    }
     if (coin(1, 8)) for (auto &nd : c.nodes) { nd.cx = 100; nd.cy = 100; }       // coincident start
     std::set<std::pair<int, int>> E;
     auto add = [&](int a, int b) { if (a != b) E.insert({std::min(a, b), std::max(a, b)}); };
@@ -179,6 +194,10 @@ int main(int argc, char **argv) {
     std::vector<Prop> props;
     props.push_back({"C14.hola", 1.0,
         [] { Case c = gen_case(); return record("C14.hola", c.str(), [&] { return eval_hola(c); }); },
+        [](Reader &r) { return eval_hola(Case::parse(r)); }, nullptr});
+    // pure trees of similar-sized nodes: the branch of doHOLA where the symmetric tree layout is final
+    props.push_back({"C14.trees", 2.0,
+        [] { Case c = gen_case(true); return record("C14.trees", c.str(), [&] { return eval_hola(c); }); },
         [](Reader &r) { return eval_hola(Case::parse(r)); }, nullptr});
     return run_main(argc, argv, props);
 }
